@@ -11,6 +11,38 @@ import random
 
 from . import core, build
 
+def _big_texts():
+    """Deterministic pseudo-text constants (about 60 KB in all): repeats at many distances, so that the string-table
+    compressor emits back-references of every offset/length class."""
+    rng = random.Random(20240917)
+    vocab = ["".join(rng.choice("abcdefghijklmnopqrstuvwxyz") for _ in range(rng.randint(2, 9))) for _ in range(160)]
+    texts = []
+    for k in range(40):
+        words = []
+        n = rng.randint(120, 320)
+        while len(words) < n:
+            if words and rng.random() < 0.25:
+                a = rng.randrange(len(words))
+                words += words[a:a + rng.randint(2, 12)]          # a repeated phrase
+            else:
+                words.append(rng.choice(vocab))
+        texts.append("T%02d " % k + " ".join(words))
+    # back-references at chosen distances and lengths (the boundaries of the compressor's offset/length encodings):
+    # marker + incompressible filler + the same marker again, the marker occurring nowhere else
+    alpha = "ABCDEFGHIJKLMNOPQRSTUVWXYZabcdefghijklmnopqrstuvwxyz0123456789-_=+[]{};:,.<>/?|~!@#$%^&*()"
+    dists = [0, 1, 3, 34, 126, 127, 128, 129, 130, 255, 256, 257, 511, 512, 513, 638, 639, 640, 641, 642, 767, 768,
+             1023, 1024, 1025, 4096, 16383, 16384, 16511, 16512, 16513]
+    for d in dists:
+        for L in ((4, 20, 34, 35, 66) if d < 2000 else (20,)):
+            # d = gap between the end of the first occurrence and the start of the repeat
+            m = "".join(rng.choice(alpha) for _ in range(L))
+            f = "".join(rng.choice(alpha) for _ in range(d))
+            texts.append("D%d/%d " % (d, L) + m + f + m + " end")
+    return texts
+
+
+BIG_TEXTS = _big_texts()
+
 SRC = '''# cython: language_level=3
 def mul_c(x):
     return (x * 1000, 1000 * x, x * 1073741823, x * -7, x * 3, 1073741824 * x)
@@ -83,6 +115,8 @@ def fmt_u(unsigned int x):
     return (f"{x:05d}", f"{x:>12d}", f"{x:o}", f"{x:012x}", f"{x}", "%012d" % x)
 '''
 
+SRC += "\ndef big_strings(int k):\n    t = (" + ", ".join(repr(t) for t in BIG_TEXTS) + ")\n    return t[k]\n"
+
 
 def model(fn, args):
     x = args[0] if args else None
@@ -106,6 +140,8 @@ def model(fn, args):
         return args[0][args[1]:args[2]]
     if fn == "kw_merge":
         return _kwf(**args[1], **args[2])
+    if fn == "big_strings":
+        return BIG_TEXTS[args[0]]
     if fn == "mv_assign":
         r, c, k, mode = args
         a = [[i * 10 + j for j in range(c)] for i in range(r)]
@@ -164,6 +200,8 @@ def cases(seed):
                 out.append(["str_slice", ["abcdef"[:n], a, b]])
                 out.append(["tuple_slice", [vals, a, b]])
                 out.append(["list_slice", [vals, a, b]])
+    for k in range(len(BIG_TEXTS)):
+        out.append(["big_strings", [k]])
     for r_, c_ in ((1, 1), (2, 3), (3, 2), (4, 5), (5, 1)):
         for mode in range(6):
             for k in range(r_ if mode in (0, 1) else (c_ if mode == 5 else 1)):
